@@ -785,7 +785,7 @@ def gen_histories(rng, count):
             elif r < 0.85:
                 ops.append("eq")
             elif r < 0.90:
-                ops.append("cmp")
+                ops.append(rng.choice(["cmp", "cmp", "pcmp"]))
             elif r < 0.93:
                 # top-bit extraction documents a normalised operand (debug builds trap on a zero top limb)
                 ops.append("norm")
